@@ -29,7 +29,7 @@ simple_types: Dict[Optional[str], Union[int, float, complex, str, bool, None]] =
 }
 
 line_length = int(environ.get("DOCTRANS_LINE_LENGTH", 100))
-fill = partial(_fill, width=line_length)
+fill = partial(_fill, width=line_length, break_long_words=False, break_on_hyphens=False)
 
 
 # From https://github.com/Suor/funcy/blob/0ee7ae8/funcy/funcs.py#L34-L36
